@@ -18,6 +18,7 @@ ENTRY = {
                    "non-3xx responses, the latency attribute. DefaultOptions itself is not exercised in the main generator (its Logger writes to the process stdout through an internal handler); "
                    "its ordering Recovery-outside-Logger is reproduced with CustomRecoveryWithLogHandler + LoggerWithHandler, and what fox.Logger() itself prints is read from a child "
                    "process by TestDefaultLogger (one [FOX] line per request, about that request, for paths up to 40 000 bytes).",
+        level_more='Later additions: behaviours delegating to the no-route handler, failing body writes, a mounted second router, late-enabled debug level, failing resolver chains.',
         rule="cases: (logger installation, resolvers, request, handler kind, behaviour script); non-trivial = a status at a class boundary (199/200/299/300/399/400/499/500) was passed to "
              "WriteHeader, or the applicable resolver fails, or the route carries its own resolver option; distinct by the JSON form of the case",
         assumptions=["status 'actually recorded' = first non-informational status received by the underlying http.ResponseWriter, 200 when the handler returns without one (net/http semantics)",
